@@ -3,6 +3,7 @@ package rules
 import (
 	"fmt"
 	"go/types"
+	"math/big"
 
 	"cachelint/pw"
 )
@@ -25,6 +26,7 @@ func checkC05(c *Ctx) {
 	r.Rule("R05.3", "failures cached before release: builder error ∧ FailedUpdateTTL>-1 ⇒ ErrorsWrite(key, builder error) before the release", 2)
 	r.Rule("R05.4", "failure cache consulted before every build; a hit reaches no builder", 2)
 	r.Rule("R05.5", "disabled means disabled (no Errors access when FailedUpdateTTL<=-1); constructor creates Errors whenever enabled", 4)
+	r.Rule("R05.7", "single flight: atomic election, builder only under ownership, key lock held until the build is over (obligations of C01 R01.2–R01.4)", 6)
 	r.Rule("R05.6", "configuration flow: Errors.TimeToLive is the configured FailedUpdateTTL (20s default) and failures are written under a private default-TTL cell, so they expire after FailedUpdateTTL", 5)
 	r.NotDecided = []string{"wall-clock duration of failure suppression", "exact build counts under real schedules"}
 	for _, sib := range siblings {
@@ -35,9 +37,19 @@ func checkC05(c *Ctx) {
 		}
 		c.c05Sibling(fo)
 		c.c05Constructor(sib)
+		c.ctorDefaults("R05.6", "New"+sib, "config", map[string]*big.Rat{"FailedUpdateTTL": big.NewRat(20*1000000000, 1)})
 	}
 	// the failure's own TTL cell relies on WithTTL(ctx, DefaultTTL, false) installing a fresh cell (R06.3)
 	c.borrow("C06", func() { c.c06WithTTL() }, func(o *coreObl) (string, bool) { return "R05.6", o.Rule == "R06.3" })
+	// R05.7: "a burst costs exactly one successful build" needs the election of C01: one owner per key, the builder only under
+	// ownership, the key lock held until the (possibly background) build is over
+	c.borrow("C01", func() {
+		for _, sib := range siblings {
+			if fo := c.failover(sib); fo.Err == nil {
+				c.c01Sibling(fo)
+			}
+		}
+	}, func(o *coreObl) (string, bool) { return "R05.7", o.Rule == "R01.2" || o.Rule == "R01.3" || o.Rule == "R01.4" })
 }
 
 type seqEv struct {
